@@ -278,11 +278,21 @@ func (f *frame) execUnOp(in *ssa.UnOp, st *State, reach string) error {
 	v := f.value(in.X, st, reach)
 	switch in.Op {
 	case token.MUL: // load
+		lv := x.load(st, v, reach, in.Pos())
 		if g, ok := in.X.(*ssa.Global); ok {
-			// reading a package-level variable: unconstrained but stable within the run unless havocked
-			_ = g
+			// a package-level *regexp.Regexp assigned once, in init, from a constant pattern
+			if pat, ok := x.eng.regexpGlobals[g]; ok && len(lv.L) == 1 {
+				p := pat
+				lv.Regexp = &p
+				x.sc.Assume(reach, Not(Eq(lv.L[0], "0")))
+				x.UsedTrust["package variable "+g.String()+" holds regexp.MustCompile of its constant pattern (assigned once, in init)"] = true
+			}
+			if ctor, ok := x.eng.nonNilGlobals[g]; ok && len(lv.L) >= 1 {
+				x.sc.Assume(reach, Not(Eq(lv.L[0], "0")))
+				x.UsedTrust["package variable "+g.String()+" is non-nil: assigned once, in init, from "+ctor+" (assumed never to return nil)"] = true
+			}
 		}
-		f.set(in, x.load(st, v, reach, in.Pos()))
+		f.set(in, lv)
 	case token.NOT:
 		f.set(in, Val{Typ: in.Type(), L: []string{Not(v.L[0])}})
 	case token.SUB:
@@ -713,7 +723,13 @@ func (x *Exec) mapUpdate(st *State, m, k, v Val, mapT types.Type, reach string, 
 		if len(ls) > 0 {
 			x.note("unsupported: map value shape at %s", x.pos(pos))
 		}
+		interior := v.Ptr != nil
 		v = x.freshVal(mt.Elem(), "mapval", st, reach)
+		if interior && len(v.L) == 1 {
+			// the address of a field or element is never nil (taking it from a nil base is a
+			// separate safe.nil-deref obligation); which cell it denotes is lost
+			x.sc.Assume(reach, Not(Eq(v.L[0], "0")))
+		}
 	}
 	for i, l := range ls {
 		vn := x.mvName(mt, l.Path)
